@@ -142,8 +142,13 @@ func (v *Vue) evalSlot(ctx VueContext, node *html.Node, slotScope *SlotScope) ([
 	if inheritedSlotScopeData, ok := ctx.stack.EnvMap()["__slotScope__"]; ok {
 		if inheritedSlotScope, ok := inheritedSlotScopeData.(*SlotScope); ok {
 			if slotContent := inheritedSlotScope.GetSlot(slotName); slotContent != nil {
-				// Use the inherited slot content directly (already parsed as DOM nodes)
-				return slotContent.Nodes, nil
+				// Use the inherited slot content as parsed, on a copy per use: the same nodes linked into
+				// the output twice make the sibling list circular and the serialiser never returns
+				nodes := make([]*html.Node, 0, len(slotContent.Nodes))
+				for _, n := range slotContent.Nodes {
+					nodes = append(nodes, helpers.DeepCloneNode(n))
+				}
+				return nodes, nil
 			}
 		}
 	}
